@@ -103,7 +103,32 @@ def known_tolerated():
     return None
 
 
+def markup_cases():
+    """the diagnostic echoes the offending line and the file name: text that looks like console markup ('[/ 1, 2 /]', '[old]') must neither abort the run nor vanish"""
+    for label, name, text in (("closing-tag look-alike in the echoed line", "src/m_bad.f90", "& x = [/ 1, 2 /]\n"),
+                              ("closing-tag look-alike in the echoed line", "src/m_bad.f90", "& [/section] spliced text\n"),
+                              ("tag look-alike in the file name", "src/m_copy[old].f90", "& call nothing()\n")):
+        files = dict(GOOD)
+        files[name] = text
+        base = os.path.basename(name)
+        try:
+            with watchdog(60):
+                tree, ids, log = build(files)
+        except Exception as e:
+            return {"confirmed": True, "input": {"corruption": label, "file": name, "text": text}, "actual": f"run aborted: {type(e).__name__}: {e}",
+                    "expected": "the bad file is reported and skipped", "how": "Project(...) with default settings"}
+        if base in tree or set(tree) != {os.path.basename(k) for k in GOOD}:
+            return {"confirmed": True, "input": {"corruption": label, "file": name, "text": text}, "actual": sorted(tree), "expected": "only the valid files are documented", "how": "Project(...)"}
+        if base not in log:
+            return {"confirmed": True, "input": {"corruption": label, "file": name, "text": text}, "actual": "the diagnostic does not name the rejected file: " + log[-200:],
+                    "expected": f"a diagnostic naming {base}", "how": "captured console output"}
+    return None
+
+
 def search():
+    hit = markup_cases()
+    if hit:
+        return hit
     try:
         with watchdog(60):
             ref_tree, ref_ids, _ = build(GOOD)
@@ -146,4 +171,4 @@ def search():
 
 
 def count_cases():
-    return sum(1 for _ in corruptions())
+    return sum(1 for _ in corruptions()) + 3
